@@ -51,9 +51,12 @@ fn compress(h: &mut [u64; 8], block: &[u8]) {
 }
 
 pub fn sha512(msg: &[u8]) -> [u8; 64] {
-    let mut h: [u64; 8] = [
-        0x6a09e667f3bcc908, 0xbb67ae8584caa73b, 0x3c6ef372fe94f82b, 0xa54ff53a5f1d36f1, 0x510e527fade682d1, 0x9b05688c2b3e6c1f, 0x1f83d9abfb41bd6b, 0x5be0cd19137e2179,
-    ];
+    sha512_with([0x6a09e667f3bcc908, 0xbb67ae8584caa73b, 0x3c6ef372fe94f82b, 0xa54ff53a5f1d36f1, 0x510e527fade682d1, 0x9b05688c2b3e6c1f, 0x1f83d9abfb41bd6b, 0x5be0cd19137e2179], msg)
+}
+
+/// the SHA-512 compression chain from an arbitrary initial value (SHA-384, SHA-512/224, SHA-512/256 differ only there)
+pub fn sha512_with(iv: [u64; 8], msg: &[u8]) -> [u8; 64] {
+    let mut h = iv;
     // message || 0x80 || zeros || 128-bit big-endian bit length, to a multiple of 128 bytes
     let mut m = msg.to_vec();
     m.push(0x80);
